@@ -765,6 +765,21 @@ Definition chdir (s : fsys) (v : view) (dir : str) : res + str :=
        | None => inl (RFail (if win v then EW_DirNameInvalid else ENotADirectory))
        end.
 
+(* Getwd: the working directory string; as os.Getwd (stat(".") first) it needs search permission on the directory the
+   string names - when it still names one *)
+Definition getwd (s : fsys) (v : view) : res :=
+  let r := search_node s v (v_cwd v) SlLstat in
+  match sr_child r with
+  | Some c =>
+      if is_file_exists (sr_err r) then
+        match get (f_heap s) c with
+        | Some (NDir _ m) => if check_permission m OpenLookup (v_user v) then RStr (v_cwd v) else RFail EPermDenied
+        | _ => RStr (v_cwd v)
+        end
+      else RStr (v_cwd v)
+  | None => RStr (v_cwd v)
+  end.
+
 (* Stat / Lstat, memfs.go:861, 367 *)
 Definition stat_gen (slm : slmode) (s : fsys) (v : view) (path : str) : res :=
   let r := search_node s v path slm in
